@@ -858,8 +858,19 @@ def gen_long(chk, n_ref, n_hyp):
             return [rng.choice(alphabet) for _ in range(L)] + [eos] + [rng.choice(alphabet + [eos]) for _ in range(width - L - 1)]
         ref = [seq(R, long_ref and n == 0) for n in range(N)]
         hyp = [seq(H, (not long_ref) and n == 0) for n in range(N)]
+        # the edit COUNT only reacts to a cost slip when it tips a choice: tokens foreign to the other side (substitute,
+        # or delete + insert?) and a substitution price one quarter off ins + del
+        for seqs in ((hyp,) if long_ref else (ref,)):
+            for s_ in seqs:
+                for t in range(len(s_)):
+                    if s_[t] != eos and rng.random() < 0.5:
+                        s_[t] = rng.choice([5, 6])
         api = rng.choice(["er", "prefix"])
-        costs = _rand_costs(rng)
+        if rng.random() < 0.75:
+            ci, cd = rng.randint(1, 6), rng.randint(1, 6)
+            costs = [ci, cd, min(12, max(1, ci + cd + rng.choice([-1, 1])))]
+        else:
+            costs = _rand_costs(rng)
         while len(set(costs)) == 1:
             costs = _rand_costs(rng)
         cases.append(dict(api=api, module=rng.random() < 0.3, kw=rng.random() < 0.5, ref=ref, hyp=hyp, eos=eos,
